@@ -501,7 +501,12 @@ pub fn run_replay(checks: &[&dyn Check], file: &Path) -> i32 {
     let mut w = Work::new(&scratch, 0);
     let vs = check.replay(&mut w, doc.get("scenario").unwrap_or(&Value::Null));
     drop(w);
-    let _ = std::fs::remove_dir_all(&scratch);
+    if std::env::var_os("GSIM_KEEP").is_some() {
+        // debugging aid: leave the last execution's files (root/, res/: s<i>.out, s<i>.err, meta.jsonl)
+        eprintln!("replay: scratch kept at {}", scratch.display());
+    } else {
+        let _ = std::fs::remove_dir_all(&scratch);
+    }
     let mut hit = false;
     for v in &vs {
         println!("replay: violation [{}] {}", v.signature, v.what);
